@@ -919,7 +919,7 @@ theorem splitRun_join (out : List Str) (l : List QArg) (h : ∀ x ∈ l, x.ok = 
       simp only [List.map_cons, joinSp]
       rw [splitRun_arg_blank out x (h x (by simp))]
       have := ih (out ++ [x.render]) (fun z hz => h z (by simp [hz]))
-      simp only [List.map_cons, joinSp] at this
+      simp only [List.map_cons] at this
       rw [this]
       simp
 
@@ -936,7 +936,7 @@ theorem mem_escD_10 (a : Str) : 10 ∈ escD a ↔ 10 ∈ a := by
     · rename_i hc
       have : c ≠ 10 := by
         intro h; subst h; simp at hc
-      simp [ih, this, Ne.symm this]
+      simp [ih, Ne.symm this]
     · simp [ih]
 
 theorem contains_escD_10 (a : Str) : (escD a).contains 10 = a.contains 10 := by
@@ -1041,7 +1041,7 @@ theorem unquote_plain (c : Nat) (cs : Str) (h3 : c ≠ 34) (h4 : c ≠ 96) (h5 :
     dsimp only
     split
     · rfl
-    · simp [h3, h4, h5]
+    · simp
 
 theorem unquote_render (x : QArg) (hx : x.ok = true) (hu : x.uqOk = true) :
     unquoteField x.render = Parsed.pats [x.value] := by
@@ -1376,7 +1376,7 @@ theorem buildFS_closed_aux (files : Seen)
         rw [hpe, hcsS'] at h2
         have h3 : cs = fs.take (j + 1) := List.append_cancel_right h2
         rw [h3]
-        simp only [List.length_take, List.take_take]
+        simp only [List.length_take]
         congr 1
         omega
   obtain ⟨f, hf, fs, hfs, hfe, hpre⟩ := key
